@@ -76,7 +76,7 @@ func OverlayFor(verifDir, repo string, relPkgs []string) (map[string][]byte, err
 }
 
 // InitDeny lists packages whose initializers are skipped (their globals stay zero).
-var InitDeny = map[string]bool{"ergo.services/ergo/net/edf": true}
+var InitDeny = map[string]bool{}
 
 // initAllowed says whether a package's initializer is executed (others keep zero globals).
 func initAllowed(path string) bool {
